@@ -33,7 +33,7 @@ for s in seeds:
         p = subprocess.run([V + '/check', c], env=env, cwd=V, stdout=subprocess.PIPE, stderr=subprocess.STDOUT)
         outp = p.stdout.decode(errors='replace')
         viol = [l.split('replay=')[1].split('/')[-1].replace('.json', '') for l in outp.splitlines() if l.startswith('VIOLATION')]
-        row[c] = {'rc': p.returncode, 'violations': viol[:6]}
+        row[c] = {'rc': p.returncode, 'violations': viol[:6] if p.returncode in (0, 1) else outp.splitlines()[-14:]}
     if partial and s in res and 'detected_by' in res[s]:
         old = res[s]
         for c in checks:
